@@ -28,7 +28,7 @@ impl ForeignKeyBuilder for MysqlQueryBuilder {
                 sql,
                 "{}{}{}",
                 self.quote().left(),
-                name,
+                Alias::new(name).quoted(self.quote()),
                 self.quote().right()
             )
             .unwrap();
@@ -59,7 +59,7 @@ impl ForeignKeyBuilder for MysqlQueryBuilder {
                 sql,
                 "{}{}{}",
                 self.quote().left(),
-                name,
+                Alias::new(name).quoted(self.quote()),
                 self.quote().right()
             )
             .unwrap();
